@@ -102,10 +102,44 @@ def rebind_functions(facts, pin):
             continue  # ambiguous: leave both unbound (rules fail closed)
         pairs[cands[0][1]] = m
         taken.add(cands[0][1])
-    if not pairs:
+    # second pass: a function that also moved (free fn -> associated fn, another impl block / module of
+    # the same crate): same signature and a near-identical callee fingerprint, unique in the crate
+    moved = {}
+    for m in sorted(missing):
+        if m in pairs.values():
+            continue
+        cands = []
+        for n in new:
+            if n in taken or n.split("::")[0] != m.split("::")[0]:
+                continue
+            if fn_signature(cur[n]) != info[m]["sig"] or not info[m]["callees"]:
+                continue
+            cands.append((_jaccard(info[m]["callees"], fn_fingerprint(cur[n])), n))
+        cands.sort(reverse=True)
+        if cands and cands[0][0] >= 0.8 and (len(cands) == 1 or cands[1][0] < cands[0][0] - 0.2):
+            moved[cands[0][1]] = m
+            taken.add(cands[0][1])
+    if not pairs and not moved:
         return facts, []
     facts = copy.deepcopy(facts)
     ren = {n: (n.rsplit("::", 1)[1], m.rsplit("::", 1)[1]) for n, m in pairs.items()}
+    if moved:
+        # whole-path replacement for moved functions (generic arguments in the path are dropped)
+        def fix_moved(d):
+            for key in ("fn", "resolved", "path", "root", "parent", "def"):
+                v = d.get(key)
+                if isinstance(v, str):
+                    sg = strip_generics(v)
+                    for n, m in moved.items():
+                        if sg == n or sg.startswith(n + "::"):
+                            d[key] = m + sg[len(n):]
+                            if key == "fn" and "fn_name" in d:
+                                d["fn_name"] = m.rsplit("::", 1)[1]
+                            if key == "path" and d.get("kind") in ("Fn", "AssocFn"):
+                                d["name"] = m.rsplit("::", 1)[1]
+
+        for crate, fx in facts.items():
+            _walk(fx["bodies"], fix_moved)
 
     def fix(s):
         if not isinstance(s, str):
@@ -138,7 +172,7 @@ def rebind_functions(facts, pin):
     for crate, fx in facts.items():
         _walk(fx["bodies"], f)
         _walk(fx.get("impls"), f)
-    rep = [{"renamed_function": n, "bound_to": m} for n, m in sorted(pairs.items())]
+    rep = [{"renamed_function": n, "bound_to": m} for n, m in sorted(pairs.items())] + [{"moved_function": n, "bound_to": m} for n, m in sorted(moved.items())]
     return facts, rep
 
 
